@@ -1,7 +1,7 @@
 /-
   Svgdx.Ctl.Gen — the control skeleton of transform.rs / context.rs / loop_el.rs / reuse.rs:
   tags, the retry loop of `process_tags`, `generate_events` with its depth counter, and the element
-  kinds var / if / loop / for / g / symbol / reuse / specs / config / container / other.
+  kinds var / if / loop / for / g / symbol / reuse / specs / config / defaults / container / other.
 
   The document is a tree (`Node`), equivalent to the flat event list with matched start/end indices
   for well-formed input. Expression evaluation is a parameter (`Evalr`), so every theorem about
@@ -10,6 +10,7 @@
 -/
 import Svgdx.Geom.Connector
 import Svgdx.Geom.Text
+import Svgdx.Ctl.Defaults
 namespace Svgdx
 open Str Num Gen
 
@@ -80,6 +81,8 @@ deriving Repr, Inhabited
 
 structure Scope where
   vars : List (Str × Str) := []
+  /-- `defaults`: what the `<defaults>` elements met in this scope have stored, in insertion order -/
+  defaults : List (ElementMatch × Elem) := []
 deriving Repr, Inhabited
 
 /-- expression evaluation as the skeleton sees it; `ρ` is the RNG state threaded through -/
@@ -136,12 +139,26 @@ def St.setVar (st : St ρ) (k v : Str) : St ρ :=
     { st with scopes := { s with vars := setVarIn s.vars k v } :: rest,
               gen := if Attrs.lookupTable s.vars k == some v then st.gen else st.gen + 1 }
 
-/-- `push_element`: the element's (unevaluated) attributes become a new innermost scope -/
+/-- `push_element`: the element's (unevaluated) attributes become a new innermost scope (with no defaults) -/
 def St.pushElement (st : St ρ) (e : Elem) : St ρ :=
-  { st with elemStack := e :: st.elemStack, scopes := { vars := e.attrs } :: st.scopes }
+  { st with elemStack := e :: st.elemStack, scopes := { vars := e.attrs, defaults := [] } :: st.scopes }
 
 def St.popElement (st : St ρ) : St ρ :=
   { st with elemStack := st.elemStack.drop 1, scopes := st.scopes.drop 1 }
+
+/-- the defaults in force, in the order `apply_defaults` walks them: outermost scope first, each scope in
+    insertion order -/
+def defaultsInForce (scopes : List Scope) : List (ElementMatch × Elem) := scopes.reverse.flatMap (·.defaults)
+
+/-- `apply_defaults` -/
+def applyDefaults (st : St ρ) (e : Elem) : Elem := applyDefaultList (defaultsInForce st.scopes) e
+
+/-- `set_element_default`: into the innermost scope (created if the stack is empty); always counts as a change -/
+def St.setElementDefault (st : St ρ) (e : Elem) : St ρ :=
+  match st.scopes with
+  | [] => { st with scopes := [{ vars := [], defaults := [defaultEntry e] }], gen := st.gen + 1 }
+  | s :: rest =>
+    { st with scopes := { s with defaults := s.defaults ++ [defaultEntry e] } :: rest, gen := st.gen + 1 }
 
 abbrev Res := Except CErr (List Ev × Option BoundingBox)
 
@@ -213,6 +230,26 @@ def rawNodes : Nodes → List Ev
   | .nil => []
   | .cons n r => rawNode n ++ rawNodes r
 end
+
+-- every start / empty element event of a subtree, in document order (`inner_events` filtered by `try_from`)
+mutual
+def subElemsNode : Node → List Elem
+  | .elem e none _ => [e]
+  | .elem e (some kids) _ => e :: subElemsNodes kids
+  | .comment _ _ => []
+  | .text _ => []
+  | .cdata _ => []
+def subElemsNodes : Nodes → List Elem
+  | .nil => []
+  | .cons n r => subElemsNode n ++ subElemsNodes r
+end
+
+/-- `DefaultsElement`: nothing is rendered; every element inside, at any nesting level, becomes a default -/
+def genDefaults (st : St ρ) (kids : Option Nodes) : St ρ × Res :=
+  (match kids with
+   | some ks => (subElemsNodes ks).foldl St.setElementDefault st
+   | none => st,
+   .ok ([], none))
 
 def svgNs : Str := cs!"http://www.w3.org/2000/svg"
 
@@ -482,6 +519,12 @@ def clipPost (ev : Evalr ρ) (e : Elem) (x : St ρ × Res) : St ρ × Res :=
     | none => x
   | _ => x
 
+/-- the element `Tag::generate_events` hands on: `Tag::Leaf` has the defaults applied, `Tag::Compound` not -/
+def leafDefaults (st : St ρ) (e : Elem) (kids : Option Nodes) : Elem :=
+  match kids with
+  | none => applyDefaults st e
+  | some _ => e
+
 def registerEarly (ev : Evalr ρ) (st : St ρ) (n : Node) : St ρ :=
   match n with
   | .elem e kids _ => registerOriginal ev st e kids
@@ -587,7 +630,7 @@ def dispatch (ev : Evalr ρ) : Nat → St ρ → Elem → Option Nodes → St ρ
     else if n == cs!"specs" then genSpecs ev fuel st kids
     else if n == cs!"var" then genVar ev st e
     else if n == cs!"if" then genIf ev fuel st e kids
-    else if n == cs!"defaults" then ({ st with outside := true }, .ok ([], none))
+    else if n == cs!"defaults" then genDefaults st kids
     else if n == cs!"for" then genFor ev fuel st e kids
     else if n == ['g'] || n == cs!"symbol" then genGroup ev fuel st e kids
     else
@@ -724,7 +767,8 @@ def forIter (ev : Evalr ρ) : Nat → St ρ → Nodes → Str → Option Str →
 def genNode (ev : Evalr ρ) : Nat → St ρ → Node → St ρ × Res
   | 0, st, _ => (st, .error .fuel)
   | fuel + 1, st, .elem e kids tail =>
-    seq (genElem ev fuel st e kids) fun st r => (st, .ok (withTail tail r.1, r.2))
+    -- `Tag::Leaf`: the defaults in force are applied to an empty-element tag, and only to that
+    seq (genElem ev fuel st (leafDefaults st e kids) kids) fun st r => (st, .ok (withTail tail r.1, r.2))
   | _ + 1, st, .comment c tail => (st, .ok ([Ev.comment c] ++ tailEvs tail, none))
   | _ + 1, st, .text t => (st, .ok ([Ev.text t], none))
   | _ + 1, st, .cdata c => (st, .ok ([Ev.cdata c], none))
